@@ -8,7 +8,7 @@
 import os, json, struct, shutil, collections
 import qv, common, hist, seqrun
 
-CONE = ['Spec/Entries.v', 'Spec/Image.v', 'Model/Codec.v', 'Proofs/Geometry.v', 'Proofs/HdrProps.v', 'Props/C14.v']
+CONE = ['Base/RExpr.v', 'Base/Bits.v', 'Spec/Entries.v', 'Spec/Image.v', 'Model/Codec.v', 'Proofs/Geometry.v', 'Proofs/HdrProps.v', 'Proofs/GenEq.v', 'Proofs/ArgProps.v', 'Proofs/GeqMore.v', 'Props/C14.v']
 
 
 def base_header(cb=16, ro=4, size=1 << 20, version=3, l1_size=1, rtc=1, hl=112):
